@@ -21,9 +21,11 @@ from common import import_qib, run_correspondence, q as qstr, cq, uncq
 
 PROP = "C20"
 LEAN_FILES = ["QibProofs/Properties/C20.lean"]
-GEN = ("pauli",)
+GEN = ("pauli", "vqe")
 DRIVER = "drv_algo"
-LEVEL_TEXT = ("Lean 4 theorems for all complex state vectors, all complex matrices / Pauli operators and all parameter vectors: "
+LEVEL_TEXT = ("Lean 4 theorems (over a model whose shape tables - conjugated factor and product order of the expectation, accepted "
+              "excitation settings, operator kinds and order of the cluster terms per as_matrix branch, sign/conjugation of the exponent, "
+              "num_parameters - are regenerated from the source on every run) for all complex state vectors, all complex matrices / Pauli operators and all parameter vectors: "
               "psi^dagger P psi (double sum, two-step order, Mathlib's star psi dot P mulVec psi) with a proved bridge from the "
               "executable array model; reality for Hermitian P; phase invariance; eigenvalue on eigenvectors; Rayleigh bounds via "
               "Mathlib's spectral theorem, also restricted to a particle sector; exp(T - T^H) unitary; the cluster operator built "
@@ -283,8 +285,10 @@ def compare(case, o, m):
             if o.get("where") != m.get("where"):
                 return f"raised in different places: impl {o.get('where')} model {m.get('where')}"
             return None
+        if bool(o.get("none")) != bool(m.get("none")):
+            return f"as_matrix returned None: impl {bool(o.get('none'))}, model {bool(m.get('none'))}"
         if o.get("none"):
-            return "impl returned None, model returned generators"
+            return None
         if o["nparams"] != m["nparams"]:
             return f"num_parameters: impl {o['nparams']} != model {m['nparams']}"
         gens = o["_gens"]
